@@ -7,7 +7,7 @@ EXTENDS Naturals, Sequences, TLC, Json
 CONSTANTS Full
 Ops == {[op |-> "exec", node |-> 0], [op |-> "exec", node |-> 1], [op |-> "exec_paged", node |-> 0], [op |-> "batch", node |-> 0]}
      \cup (IF Full THEN {[op |-> "exec_paged", node |-> 1], [op |-> "batch", node |-> 1]} ELSE {})
-Evs == {[ev |-> "no"], [ev |-> "evict", node |-> 0], [ev |-> "evict", node |-> 1], [ev |-> "alter"], [ev |-> "alter_evict"], [ev |-> "idchange", node |-> 0]}
+Evs == {[ev |-> "no"], [ev |-> "evict", node |-> 0], [ev |-> "evict", node |-> 1], [ev |-> "alter"], [ev |-> "alter_evict"], [ev |-> "rename_evict"], [ev |-> "idchange", node |-> 0]}
 Cfgs == {[ext |-> e, skip |-> s] : e \in {<<1, 1>>, <<0, 0>>, <<1, 0>>, <<0, 1>>}, s \in {0, 1}}
 \* without the extension and with skip-metadata the protocol cannot tell the client that the columns changed while the statement stays prepared
 Expressible(cf, ev) == ~(ev.ev = "alter" /\ cf.skip = 1 /\ 0 \in {cf.ext[1], cf.ext[2]})
